@@ -79,6 +79,11 @@ func main() {
 			usage()
 		}
 		forEachCase(os.Args[2], runCase)
+	case "deadline":
+		if dn, err := os.OpenFile(os.DevNull, os.O_WRONLY, 0); err == nil {
+			os.Stdout = dn
+		}
+		deadlineRuns(os.Args[2])
 	default:
 		usage()
 	}
